@@ -859,7 +859,7 @@ func dispatchTablesIn(f *FuncInfo) []dispatchTable {
 		if lit == nil {
 			return
 		}
-		t := &SwitchTable{}
+		t := &SwitchTable{At: as.Pos(), TagObj: objOfIdent(info, ix.Index)}
 		for _, el := range lit.Elts {
 			kv, ok := el.(*ast.KeyValueExpr)
 			if !ok {
@@ -878,9 +878,74 @@ func dispatchTablesIn(f *FuncInfo) []dispatchTable {
 		}
 		out = append(out, dispatchTable{t, as.Pos()})
 	}
+	// `if v == A { ... } else if v == B || v == C { ... } else { ... }` over one variable and constants
+	chain := func(is *ast.IfStmt) {
+		var tagObj types.Object
+		t := &SwitchTable{At: is.Pos()}
+		labelsOf := func(cond ast.Expr) ([]*types.Const, []string, bool) {
+			var ks []*types.Const
+			var vs []string
+			var walk func(e ast.Expr) bool
+			walk = func(e ast.Expr) bool {
+				be, ok := ast.Unparen(e).(*ast.BinaryExpr)
+				if !ok {
+					return false
+				}
+				if be.Op == token.LOR {
+					return walk(be.X) && walk(be.Y)
+				}
+				if be.Op != token.EQL {
+					return false
+				}
+				v, k := be.X, be.Y
+				if constOf(info, v) != nil {
+					v, k = k, v
+				}
+				kc := constOf(info, k)
+				vo := objOfIdent(info, v)
+				if kc == nil || vo == nil || (tagObj != nil && vo != tagObj) {
+					return false
+				}
+				tagObj = vo
+				sv, _ := constString(info, k)
+				ks = append(ks, kc)
+				vs = append(vs, sv)
+				return true
+			}
+			ok := walk(cond)
+			return ks, vs, ok
+		}
+		cur := is
+		for cur != nil {
+			if cur.Init != nil {
+				return
+			}
+			ks, vs, ok := labelsOf(cur.Cond)
+			if !ok {
+				return
+			}
+			t.Arms = append(t.Arms, &SwitchArm{Labels: ks, Values: vs, Body: cur.Body.List, Clauses: []*ast.CaseClause{{Body: cur.Body.List}}})
+			switch e := cur.Else.(type) {
+			case *ast.IfStmt:
+				cur = e
+			case *ast.BlockStmt:
+				t.Arms = append(t.Arms, &SwitchArm{Default: true, Body: e.List, Clauses: []*ast.CaseClause{{Body: e.List}}})
+				cur = nil
+			default:
+				cur = nil
+			}
+		}
+		if len(t.Arms) >= 2 {
+			t.TagObj = tagObj
+			out = append(out, dispatchTable{t, is.Pos()})
+		}
+	}
 	visit = func(list []ast.Stmt) {
 		for i, st := range list {
 			handle(list, i)
+			if is, ok := st.(*ast.IfStmt); ok {
+				chain(is)
+			}
 			switch x := st.(type) {
 			case *ast.SwitchStmt:
 				if x.Tag != nil {
